@@ -69,6 +69,31 @@ theorem tau_core (xi eta A B : ℝ) (h : xi ^ 2 + eta ^ 2 = 4 * (A ^ 2 + B ^ 2))
     · apply mul_left_cancel₀ hR0
       linear_combination (2 * B) * hc + (2 * A) * hs
 
+/-- what `tau` means: when `t2 ≥ 0` (the branch without `+ π`) and `ξ² + η² = 4(A² + B²)`, the returned
+`tau` solves `2(A cos τ − B sin τ) = ξ`, `2(B cos τ + A sin τ) = η` -/
+theorem tauOmega_tau_solves (u v xi eta phi : ℝ)
+    (ht2 : 0 ≤ 2 * (Real.cos (rmod2pi (u - v)) - Real.cos v - Real.cos u) + 3)
+    (h : xi ^ 2 + eta ^ 2 = 4 * ((Real.sin u - Real.sin (rmod2pi (u - v))) ^ 2 +
+      (Real.cos u - Real.cos (rmod2pi (u - v)) - 1) ^ 2)) :
+    2 * ((Real.sin u - Real.sin (rmod2pi (u - v))) * Real.cos (tauOmega u v xi eta phi).1 -
+      (Real.cos u - Real.cos (rmod2pi (u - v)) - 1) * Real.sin (tauOmega u v xi eta phi).1) = xi ∧
+    2 * ((Real.cos u - Real.cos (rmod2pi (u - v)) - 1) * Real.cos (tauOmega u v xi eta phi).1 +
+      (Real.sin u - Real.sin (rmod2pi (u - v))) * Real.sin (tauOmega u v xi eta phi).1) = eta := by
+  obtain ⟨-, ⟨k1, hk1⟩, -⟩ := tauOmega_spec u v xi eta phi
+  rw [if_neg (not_lt.mpr ht2)] at hk1
+  rw [sin_shift hk1, cos_shift hk1]
+  exact tau_core xi eta _ _ h
+
+/-- at its two call sites `tauOmega`'s `t2` is a square resp. `5 − 4 cos u`: the `t2 < 0` branch
+(`tau = mod2pi(t1 + π)`) is never taken in exact arithmetic -/
+theorem tauOmega_t2_callers (u : ℝ) :
+    2 * (Real.cos (rmod2pi (u - -u)) - Real.cos (-u) - Real.cos u) + 3 = (2 * Real.cos u - 1) ^ 2 ∧
+    2 * (Real.cos (rmod2pi (u - u)) - Real.cos u - Real.cos u) + 3 = 5 - 4 * Real.cos u := by
+  obtain ⟨kd, hkd⟩ := rmod2pi_exact (u - -u)
+  have hδ : rmod2pi (u - -u) = 2 * u + kd * (2 * Real.pi) := by rw [hkd]; ring
+  rw [cos_shift hδ, Real.cos_two_mul, Real.cos_neg, sub_self, rmod2pi_zero, Real.cos_zero]
+  constructor <;> ring
+
 /-! ## end poses of the two stored words -/
 
 /-- end pose of `L t · R u · L (−u) · R v` (type 2, builder `bCCCCa`) -/
